@@ -39,6 +39,7 @@ Verdict(sc) ==
                            hhAgree |-> (r.hh = m.hh)]
              ELSE [wrote |-> TRUE, ok |-> FALSE]
 
+DevStaticKeyInClear == "StaticKeyInClear"
 DevSkipSS == "SkipSS"
 DevIgnoreDhZero == "IgnoreDhZero"
 
@@ -55,6 +56,18 @@ SenderAuthentic == V.ok => (Eq(V.sender, PubOf(Priv(sc.sPriv))) /\ V.payload = S
 RespectsClass == /\ C05Class(sc) = "must_reject" => ~V.ok
                  /\ C05Class(sc) = "must_accept" => V.ok
                  /\ C05Class(sc) # "refused" => V.wrote
+
+\* C08: nothing that is sent outside an AEAD mentions a static key (private or public) of
+\* either party, and the cleartext fields do not depend on who the parties are.
+ClearFields(m) == {x \in {m.e, m.encS, m.encP} : x.op # "aead"}
+NoIdentityInClear ==
+  LET m == Msg(sc)
+  IN m.ok => \A x \in ClearFields(m) : \A id \in StaticIds \cup RecipIds :
+                 ~Mentions(x, Sym(id)) /\ ~Mentions(x, PubOf(Sym(id)))
+ClearIndependentOfIdentity ==
+  LET m == Msg(sc)
+      m2 == Msg([sc EXCEPT !.sPriv = "A", !.sClaim = "A", !.rs = IF sc.rs = "R" THEN "R2" ELSE "R"])
+  IN (m.ok /\ m2.ok /\ sc.rs # LO) => ClearFields(m) = ClearFields(m2)
 
 Emit == phase = "done" =>
   PrintT(<<"REPLAY", ToJson([sc |-> sc, class |-> C05Class(sc), model |-> [wrote |-> V.wrote, ok |-> V.ok]])>>)
